@@ -147,12 +147,52 @@ func init() {
 					z[i] = Str{S: n}
 				case "parent":
 					z[i] = Str{S: dir}
+				case "info":
+					// a FileInfo carrying name and size, so that Info() needs no system call
+					if ft := pkg.Type("fileStat"); ft != nil {
+						fst := ft.Type().Underlying().(*types.Struct)
+						fz := in.zero(ft.Type()).(Struct)
+						for j := 0; j < fst.NumFields(); j++ {
+							switch fst.Field(j).Name() {
+							case "name":
+								fz[j] = Str{S: n}
+							case "size":
+								fz[j] = in.tb.BV(64, uint64(len(st.files[filepath.Join(dir, n)])))
+							}
+						}
+						fc := new(Value)
+						*fc = fz
+						z[i] = Iface{T: types.NewPointer(ft.Type()), V: Ptr{fc}}
+					}
 				}
 			}
 			*c = z
 			out = append(out, Iface{T: types.NewPointer(dt.Type()), V: Ptr{c}})
 		}
 		return Tuple{out, nilErr}
+	})
+
+	reg(RTPkg+".CopyTree", func(in *Interp, caller *frame, pos token.Pos, fn *ssa.Function, args []Value) Value {
+		st := in.fs()
+		src := filepath.Clean(in.concreteStr(args[0], "src"))
+		dst := filepath.Clean(in.concreteStr(args[1], "dst"))
+		st.dirs[dst] = true
+		for f, data := range st.files {
+			if filepath.Dir(f) == src {
+				st.files[filepath.Join(dst, filepath.Base(f))] = data
+			}
+		}
+		// bolt files: the committed state
+		pre := "boltfile:" + src + "/"
+		for k, v := range in.p.sync {
+			ks, ok := k.(string)
+			if !ok || !strings.HasPrefix(ks, pre) {
+				continue
+			}
+			bf := v.(*boltFile)
+			in.p.sync["boltfile:"+dst+"/"+strings.TrimPrefix(ks, pre)] = &boltFile{root: bf.root.clone()}
+		}
+		return nilErr
 	})
 
 	// time stamps: an opaque but invertible text form
